@@ -39,6 +39,8 @@ struct ProcSpec {
   int cache = 1;
   long maxjobs = -1;
   bool restart_failed = false;        // stat(FAILED)
+  bool restart_assigned = false;      // stat(ASSIGNED): only for a process that starts after quiescence (no live host)
+  bool restart_complete = false;      // stat(COMPLETE): likewise
   bool restart_oldhost = false;       // host(oldhost:1)
   std::vector<int> restart_procs;     // host(simhost:<pid of proc>)
   bool restart_all_dead = false;      // phase 2: name every host that died (resolved at start)
@@ -46,7 +48,7 @@ struct ProcSpec {
   int start_ref = 0;                  // process referred to by AFTER_SYNCS / AFTER_END
   int start_k = 1;
   long skew = 0;                      // clock skew in seconds
-  bool is_restart() const { return restart_failed || restart_oldhost || !restart_procs.empty() || restart_all_dead; }
+  bool is_restart() const { return restart_failed || restart_assigned || restart_complete || restart_oldhost || !restart_procs.empty() || restart_all_dead; }
 };
 
 struct Plan : sim::PlanBase {
@@ -205,7 +207,7 @@ struct World : simio::Env {
   simio::WriteFault write_fault(int sproc, int fileid, size_t n) override {
     simio::WriteFault wf;
     int proc = sproc - 1;
-    if (proc < 0) return wf;
+    if (proc < 0 || fileid > simio::FILE_BACKUP) return wf;  // no faults on writes to the lock file
     long tgt = rewrite_target[fileid][proc];
     long sofar = rewrite_bytes[fileid][proc];
     if (tgt >= 0 && sofar + (long)n >= tgt && !ps[proc].killed) {
@@ -417,8 +419,7 @@ struct World : simio::Env {
       for (size_t p = 0; p < plan->procs.size(); p++) {
         if (gate_open[p]) continue;
         gate_open[p] = true; sim::wake(sim::K_GATE, (long)p); woke = true;
-        phase2_opened = true;
-        break;  // one phase-2 process at a time
+        phase2_opened = true;  // all phase-2 processes start together (two restart processes with the same pattern may race)
       }
     }
     return woke;
@@ -516,7 +517,12 @@ void process_body(int p) {
     if (sp.restart_all_dead)
       for (int q = 0; q < (int)w.ps.size(); q++) if (q != p && w.ps[q].dead) add_host(host(q));
     if (!hosts.empty()) pattern += "host(" + hosts + ")";
-    if (sp.restart_failed) { pattern += std::string(pattern.empty() ? "" : " ") + "stat(FAILED)"; st.restart_stats.insert("FAILED"); }
+    std::string stats;
+    auto add_stat = [&](const char *x) { stats += (stats.empty() ? "" : (p % 2 ? ", " : ",")); stats += x; st.restart_stats.insert(x); };
+    if (sp.restart_failed) add_stat("FAILED");
+    if (sp.restart_assigned) add_stat("ASSIGNED");
+    if (sp.restart_complete) add_stat("COMPLETE");
+    if (!stats.empty()) pattern += std::string(pattern.empty() ? "" : " ") + "stat(" + stats + ")";
   }
   for (int j = 0; j < w.plan->J; j++) if (w.claimable(w.T[j], p)) st.claimable_at_start.push_back(j + 1);
   w.note("start p" + std::to_string(p) + " threads=" + std::to_string(sp.threads) + " cache=" + std::to_string(sp.cache) + " maxjobs=" + std::to_string(sp.maxjobs) +
@@ -645,6 +651,14 @@ struct Jobs {
       }
       p.procs.push_back(s);
     }
+    // a second restart process with the same kind of pattern, started together with the first or shortly after
+    if (p.procs.size() < 5 && !p.procs.empty() && p.procs.back().is_restart() && p.procs.back().restart_procs.empty() && r.chance(0.35)) {
+      ProcSpec s = p.procs.back();
+      s.threads = 1 + (int)r.below(2);
+      s.cache = 1 + (int)r.below(4);
+      if (r.chance(0.5)) { s.start = ST_AFTER_SYNCS; s.start_ref = (int)p.procs.size() - 1; s.start_k = 1; }
+      p.procs.push_back(s);
+    }
     // phase 2: after quiescence, a restart process that names every dead host
     if ((faulty && r.chance(0.7)) || r.chance(0.2)) {
       ProcSpec s;
@@ -653,9 +667,19 @@ struct Jobs {
       s.maxjobs = -1;
       s.restart_all_dead = true;
       s.restart_failed = r.chance(0.5);
+      s.restart_assigned = r.chance(0.25);
+      s.restart_complete = r.chance(0.15);
       s.restart_oldhost = history && r.chance(0.5);
       s.start = ST_PHASE2;
       p.procs.push_back(s);
+      if (r.chance(0.3)) {  // two sweepers with the same pattern race for the same jobs
+        // stat(ASSIGNED) / stat(COMPLETE) would name jobs of the other, live sweeper: double assignment by design, not generated
+        p.procs.back().restart_assigned = p.procs.back().restart_complete = false;
+        s.restart_assigned = s.restart_complete = false;
+        s.threads = 1 + (int)r.below(2);
+        s.cache = 1 + (int)r.below(3);
+        p.procs.push_back(s);
+      }
     }
     p.pick_strategy(r);
     if (tier == "enum") {
@@ -695,7 +719,7 @@ struct Jobs {
     js::Value ps = js::Value::arr();
     for (auto &s : p.procs) {
       js::Value o = js::Value::obj();
-      o.set("threads", s.threads).set("cache", s.cache).set("maxjobs", s.maxjobs).set("restart_failed", s.restart_failed).set("restart_oldhost", s.restart_oldhost)
+      o.set("threads", s.threads).set("cache", s.cache).set("maxjobs", s.maxjobs).set("restart_failed", s.restart_failed).set("restart_assigned", s.restart_assigned).set("restart_complete", s.restart_complete).set("restart_oldhost", s.restart_oldhost)
        .set("restart_procs", js::Value::arr_of(s.restart_procs)).set("restart_all_dead", s.restart_all_dead).set("start", s.start).set("start_ref", s.start_ref)
        .set("start_k", s.start_k).set("skew", s.skew);
       ps.push(o);
@@ -720,7 +744,7 @@ struct Jobs {
     for (auto &o : v.at("procs").a) {
       ProcSpec s;
       s.threads = (int)o.num("threads", 1); s.cache = (int)o.num("cache", 1); s.maxjobs = (long)o.num("maxjobs", -1);
-      s.restart_failed = o.at("restart_failed").b; s.restart_oldhost = o.at("restart_oldhost").b; s.restart_all_dead = o.at("restart_all_dead").b;
+      s.restart_failed = o.at("restart_failed").b; s.restart_assigned = o.has("restart_assigned") && o.at("restart_assigned").b; s.restart_complete = o.has("restart_complete") && o.at("restart_complete").b; s.restart_oldhost = o.at("restart_oldhost").b; s.restart_all_dead = o.at("restart_all_dead").b;
       for (auto &x : o.at("restart_procs").a) s.restart_procs.push_back((int)x.i);
       s.start = (int)o.num("start", 0); s.start_ref = (int)o.num("start_ref", 0); s.start_k = (int)o.num("start_k", 1); s.skew = (long)o.num("skew", 0);
       p.procs.push_back(s);
@@ -777,6 +801,8 @@ struct Jobs {
     for (size_t i = 0; i < p.procs.size(); i++) {
       const ProcSpec &s = p.procs[i];
       if (s.threads > 1) { Plan q = p; q.procs[i].threads = 1; out.push_back(q); }
+      if (s.restart_assigned) { Plan q = p; q.procs[i].restart_assigned = false; out.push_back(q); }
+      if (s.restart_complete) { Plan q = p; q.procs[i].restart_complete = false; out.push_back(q); }
       if (s.cache > 1) { Plan q = p; q.procs[i].cache = 1; out.push_back(q); }
       if (s.maxjobs >= 0) { Plan q = p; q.procs[i].maxjobs = -1; out.push_back(q); }
       if (s.skew != 0) { Plan q = p; q.procs[i].skew = 0; out.push_back(q); }
